@@ -64,7 +64,7 @@ pub fn property() -> Property {
       id: 0,
       name: "access calls vs reference model",
       quick: 6_000,
-      thorough: 1_000_000,
+      thorough: 8_000_000,
       max_len: 400,
       max_threads: 0,
     }],
